@@ -11,7 +11,10 @@ Protocol vocabulary (treetable):
 treeset: new/new_default/destroy, add <e>, remove <e> [noout=1], remove_all, contains <e>, size,
   first, last, greater_than <e>, lesser_than <e>, foreach, it_new/it_next/it_remove/it_drop.
 
-cmp: 0 numeric order, 1 reversed, 2 by (v % 100, v) — all total orders.
+cmp: 0 numeric order, 1 reversed, 2 by (v % 100, v), 3 numeric with large magnitudes (difference clamped
+to +-(2^31-1)) — all total orders.  Keys and values include pairs that differ by exactly 2^31, 2^32, 2^63 and
+numbers near 2^64-1 (CONVENTIONS Addendum 3); remove / remove_first / remove_last / it_remove are generated
+with and without an out-pointer (noout=1) in every focus.
 
 focus: None = the operations C03 names (core + foreach + iterator next/remove), no fail=;
 "iter" iterator-heavy; "reject" absent keys / empty table / extremes; "fault" allocation-heavy
@@ -25,6 +28,19 @@ KEY_NOT_FOUND); while an iterator is live the table is modified only through it 
 is emitted before any structural table operation: the C iterator holds node pointers).
 """
 import itertools
+
+
+# Addendum 3: keys/values that differ by exactly 2^31, 2^32, 2^63 and values near 2^64-1
+BIG_OFFSETS = [2**31, 2**32, 2**63]
+NEAR_MAX = [2**64 - 1, 2**64 - 2, 2**63 - 1, 2**63, 2**32 - 1, 2**31 - 1]
+
+
+def big_variant(rng, base):
+    """a number that collides with `base` when a difference is truncated to 32 bits / int / the sign bit"""
+    r = rng.random()
+    if r < 0.75:
+        return base + rng.choice(BIG_OFFSETS)
+    return rng.choice(NEAR_MAX)
 
 
 def _key(cmpw):
@@ -66,7 +82,7 @@ class _Hist:
     def add(self, k, v=None, fail=False):
         if k not in self.m:
             self._structural()
-        v = 1 if self.kind == "set" else (k * 10 % 97 if v is None else v)
+        v = 1 if self.kind == "set" else ((k * 10 % 97 if k < 2**31 else k ^ 0xFFFF) if v is None else v)
         line = f"add {k}" if self.kind == "set" else f"add {k} {v}"
         if fail and not self.default:
             line += " fail=1"
@@ -208,7 +224,7 @@ class _TreeGen:
         return out
 
     def _small_scope(self, tier, focus=None):
-        out = []
+        out = self.edge_histories()
         allf = focus == "all"
         nmax = 5 if tier == "quick" else 6
         # (a) every insertion order of <= nmax keys, then every single removal (by key, first, last)
@@ -220,12 +236,13 @@ class _TreeGen:
                     h = _Hist(self.kind)
                     for k in perm:
                         h.add(k * 2)
+                    no = (len(out) % 2 == 1)          # with and without an out-pointer
                     if rem == "first":
-                        h.remove_first() if self.kind == "table" else h.remove(2)
+                        h.remove_first(no) if self.kind == "table" else h.remove(2)
                     elif rem == "last":
-                        h.remove_last() if self.kind == "table" else h.remove(2 * n)
+                        h.remove_last(no) if self.kind == "table" else h.remove(2 * n)
                     else:
-                        h.remove(rem * 2)
+                        h.remove(rem * 2, no)
                     out.append(h.done())
         # (b) every insertion order x every removal order of <= 4 (5) keys
         n2 = 4 if tier == "quick" else 5
@@ -240,7 +257,7 @@ class _TreeGen:
                     out.append(h.done())
         # (c) sorted / reversed / zig-zag insertion of N keys, all lookups, then a removal phase
         sizes = (1, 2, 3, 7, 8, 15, 16, 33) if tier == "quick" else (1, 2, 3, 4, 7, 8, 15, 16, 31, 32, 33, 64, 100)
-        for cmpw in (0, 1, 2):
+        for cmpw in (0, 1, 2, 3):
             for n in sizes:
                 for oname, ks in orders(n).items():
                     for phase in ("asc", "desc", "first", "last", "iter", "iter_all", "all"):
@@ -320,13 +337,93 @@ class _TreeGen:
             out.append(h.done())
         return out
 
+    def probe_edges(self, h, keys):
+        """the queries that walk the tree (foreach, contains_value, first/last, successor/predecessor)"""
+        q1, q0 = self.q()
+        for name in q0:
+            h.query(name)
+        for k in keys:
+            h.query("greater_than", k)
+            h.query("lesser_than", k)
+        if self.kind == "table":
+            h.query("contains_value", 30)
+            h.query("contains_value", 0)
+
+    def drain_and_probe(self, h, rng, key):
+        """leave a single entry, query; empty the table in one of the possible ways, query again"""
+        ks = h.sorted_keys()
+        while len(ks) > 1:
+            h.remove(ks.pop(rng.randrange(len(ks))), rng.random() < 0.3)
+        if not ks:
+            h.add(key())
+        k = h.sorted_keys()[0]
+        self.probe_edges(h, [k, key()])
+        how = rng.choice(["remove", "first", "last", "all", "iter"])
+        no = rng.random() < 0.5
+        if how == "first" and self.kind == "table":
+            h.remove_first(no)
+        elif how == "last" and self.kind == "table":
+            h.remove_last(no)
+        elif how == "all":
+            h.remove_all()
+        elif how == "iter":
+            h.it_new(); h.it_next(); h.it_remove(noout=no); h.it_next()
+        else:
+            h.remove(k, no)
+        self.probe_edges(h, [k])
+
+    def edge_histories(self):
+        """single-entry and just-emptied tables before every walking query; noout variants; big keys"""
+        out = []
+        B = [5, 5 + 2**31, 5 + 2**32, 5 + 2**63, 2**64 - 1, 2**64 - 2, 6, 6 + 2**32]
+        for cmpw in (0, 1, 2, 3):
+            for how in ("remove", "first", "last", "all", "iter"):
+                for no in (False, True):
+                    if self.kind == "set" and how in ("first", "last"):
+                        continue
+                    h = _Hist(self.kind, cmpw)
+                    self.probe_edges(h, [7])                       # never filled
+                    h.add(7, 30)
+                    self.probe_edges(h, [7, 6, 8])                 # single entry
+                    if how == "first":
+                        h.remove_first(no)
+                    elif how == "last":
+                        h.remove_last(no)
+                    elif how == "all":
+                        h.remove_all()
+                    elif how == "iter":
+                        h.it_new(); h.it_next(); h.it_remove(noout=no); h.it_next()
+                    else:
+                        h.remove(7, no)
+                    self.probe_edges(h, [7])                       # just emptied
+                    h.add(9, 0)
+                    self.probe_edges(h, [9])
+                    out.append(h.done())
+            # keys 2^31 / 2^32 / 2^63 apart and near 2^64-1, in several insertion orders, all lookups, removals
+            for order in (B, B[::-1], B[1::2] + B[0::2]):
+                h = _Hist(self.kind, cmpw)
+                for k in order:
+                    h.add(k, k)
+                self.probe(h, B + [5 + 2**33, 4, 2**63 + 6])
+                if self.kind == "table":
+                    for v in B:
+                        h.query("contains_value", v)
+                h.it_new()
+                for _ in range(len(B) + 1):
+                    h.it_next()
+                for i, k in enumerate(order):
+                    h.remove(k, i % 2 == 1)
+                    h.query(self.q()[1][0])
+                out.append(h.done())
+        return out
+
     # ------------------------------------------------------------------ random
     def random(self, rng, n, tier, focus=None):
         return [self.one(rng, tier, focus) for _ in range(n)]
 
     def one(self, rng, tier, focus):
         allf = focus == "all"
-        cmpw = rng.choice([0, 0, 1, 2])
+        cmpw = rng.choice([0, 0, 1, 2, 3, 3])
         ctor = None
         if allf and rng.random() < 0.05:
             ctor = f"new_default cmp={cmpw}"
@@ -336,9 +433,15 @@ class _TreeGen:
         q1, q0 = self.q()
 
         def key():
-            if rng.random() < 0.03:
+            r = rng.random()
+            if r < 0.03:
                 return 0
+            if r < 0.15:                      # 2^31 / 2^32 / 2^63 apart from a small key, or near 2^64-1
+                return big_variant(rng, rng.randint(1, min(krange, 8)))
             return rng.randint(1, krange)
+
+        def noout():
+            return rng.random() < 0.25
 
         def absent_or_extreme():
             ks = h.sorted_keys()
@@ -363,7 +466,7 @@ class _TreeGen:
             elif focus == "reject":
                 phase = rng.choice(["grow", "reject", "reject", "shrink", "mixed"])
             else:
-                phase = rng.choice(["grow", "grow", "shrink", "shrink", "mixed", "lookup", "iter", "ends"] + (["reject"] if allf else []))
+                phase = rng.choice(["grow", "grow", "shrink", "shrink", "mixed", "lookup", "iter", "ends", "drain"] + (["reject"] if allf else []))
             length = rng.randint(1, maxlen)
             if phase == "grow":
                 style = rng.choice(["sorted", "reversed", "zigzag", "random", "random"])
@@ -375,14 +478,14 @@ class _TreeGen:
                     ks = [base + k for k in orders(cnt)[style]]
                 for k in ks:
                     fail = allf and rng.random() < 0.06
-                    h.add(k, rng.choice([None, None, 0, rng.randint(1, 50)]), fail=fail)
+                    h.add(k, rng.choice([None, None, 0, rng.randint(1, 50), big_variant(rng, 30)]), fail=fail)
             elif phase == "shrink":
                 style = rng.choice(["asc", "desc", "random", "first", "last", "present"])
                 for _ in range(length):
                     ks = h.sorted_keys()
                     if not ks and rng.random() < 0.7:
                         break               # an empty table: at most a few rejected removals
-                    no = allf and rng.random() < 0.2
+                    no = noout()
                     if style == "first" and self.kind == "table":
                         h.remove_first(no)
                     elif style == "last" and self.kind == "table":
@@ -399,9 +502,9 @@ class _TreeGen:
                 for _ in range(length):
                     r = rng.random()
                     if r < 0.3:
-                        h.remove_first()
+                        h.remove_first(noout())
                     elif r < 0.6:
-                        h.remove_last()
+                        h.remove_last(noout())
                     else:
                         h.add(key())
             elif phase == "lookup":
@@ -412,7 +515,7 @@ class _TreeGen:
                     elif r < 0.95:
                         h.query(rng.choice(q0))
                     elif self.kind == "table":
-                        h.query("contains_value", rng.choice([0, 1, 30, rng.randint(0, 50)]))
+                        h.query("contains_value", rng.choice([0, 1, 30, rng.randint(0, 50), 30 + 2**32, 30 + 2**63]))
             elif phase == "reject":
                 for _ in range(min(length, 20)):
                     r = rng.random()
@@ -434,11 +537,13 @@ class _TreeGen:
                 for _ in range(min(length, len(h.m) + 2)):
                     h.it_next()
                     if rng.random() < p_rm:
-                        h.it_remove(noout=allf and rng.random() < 0.2)
+                        h.it_remove(noout=noout())
                     if rng.random() < 0.1 and h.m:     # replacing a value is not structural
                         h.add(rng.choice(list(h.m)), rng.randint(1, 50))
                     if rng.random() < 0.1:
                         h.query(rng.choice(q1), key())
+            elif phase == "drain":
+                self.drain_and_probe(h, rng, key)
             else:  # mixed
                 for _ in range(length):
                     r = rng.random()
@@ -446,7 +551,7 @@ class _TreeGen:
                         h.add(key(), rng.choice([None, 0, rng.randint(1, 50)]), fail=allf and rng.random() < 0.05)
                     elif r < 0.8:
                         ks = h.sorted_keys()
-                        h.remove(rng.choice(ks) if ks and rng.random() < 0.7 else key())
+                        h.remove(rng.choice(ks) if ks and rng.random() < 0.7 else key(), noout())
                     elif r < 0.9:
                         h.query(rng.choice(q1), key())
                     elif r < 0.97:
